@@ -250,6 +250,7 @@ class LabeledDirectedGraph {
     void clearEdges() {
         for (VertexIndex i : *this)
             adjacencyList[i].clear();
+        edgeLabels.clear();
         edgeNumber = 0;
     }
 
@@ -564,8 +565,10 @@ void LabeledDirectedGraph<EdgeLabel>::removeVertexFromEdgeList(
         edgeNumber--;
     }
 
-    for (VertexIndex i = 0; i < size; ++i)
+    for (VertexIndex i = 0; i < size; ++i) {
         removeEdge(i, vertex);
+        edgeLabels.erase({vertex, i});
+    }
 }
 
 } // namespace BaseGraph
